@@ -46,11 +46,15 @@ def plan(tier):
                     for ww in g:
                         items.append({'dim': 2, 'wave': w, 'mode': mode, 'shape': [h, ww],
                                       'Js': [1, 2] if tier == 'quick' else [1, 2, 3]})
+    for (a, b) in PAIRS:
+        for mode in dwt.MODES:
+            for (h, ww) in ([(4, 4), (5, 6), (6, 5), (7, 7)] if tier == 'quick' else [(h_, w_) for h_ in range(3, 10) for w_ in range(3, 10)]):
+                items.append({'dim': 2, 'wave': [a, b], 'mode': mode, 'shape': [h, ww], 'Js': [1, 2]})
     return items
 
 
 def required_regimes(tier):
-    need = {'dim:1', 'dim:2', 'subset:high_only', 'subset:low_only', 'subset:finest_only', 'base:dense'}
+    need = {'per_axis_filters', 'dim:1', 'dim:2', 'subset:high_only', 'subset:low_only', 'subset:finest_only', 'base:dense'}
     for m in dwt.MODES:
         for t in ('odd', 'even', 'lt_L', 'ge_L'):
             if (m, t) != ('reflect', 'lt_L'):
@@ -58,8 +62,16 @@ def required_regimes(tier):
     return need
 
 
+PAIRS = [('db2', 'db3'), ('db4', 'sym4'), ('coif1', 'db3'), ('bior1.3', 'haar')]
+
+
 def _mods(dim, w, mode, J):
     from pytorch_wavelets import DWT1DForward, DWT1DInverse, DWTForward, DWTInverse
+    if isinstance(w, (list, tuple)):            # 4-tuple: (column wavelet, row wavelet)
+        import pywt
+        a, b = pywt.Wavelet(w[0]), pywt.Wavelet(w[1])
+        return (DWTForward(J=J, wave=(a.dec_lo, a.dec_hi, b.dec_lo, b.dec_hi), mode=mode),
+                DWTInverse(wave=(a.rec_lo, a.rec_hi, b.rec_lo, b.rec_hi), mode=mode))
     if dim == 1:
         return DWT1DForward(J=J, wave=w, mode=mode), DWT1DInverse(wave=w, mode=mode)
     return DWTForward(J=J, wave=w, mode=mode), DWTInverse(wave=w, mode=mode)
@@ -77,13 +89,14 @@ def run(item):
     res = Res()
     dim, w, mode = item['dim'], item['wave'], item['mode']
     shape = tuple(item['shape'])
-    L = dwt.flen(w)
+    pair = isinstance(w, (list, tuple))
+    L = max(dwt.flen(x) for x in w) if pair else dwt.flen(w)
     P = int(np.prod(shape))
     for J in item['Js']:
         cfg = {'dim': dim, 'wave': w, 'mode': mode, 'shape': list(shape), 'J': J}
-        tags = ['dim:%d' % dim]
+        tags = ['dim:%d' % dim] + (['per_axis_filters'] if pair else [])
         for ax, s in enumerate(shape):
-            tags += dwt.regimes_1d(s, L, mode, J)
+            tags += dwt.regimes_1d(s, dwt.flen(w[ax]) if pair else L, mode, J)
         fwd, inv = _mods(dim, w, mode, J)
 
         def f(x):
@@ -210,10 +223,15 @@ def _sig_inv(dim, w, mode, J, bshapes, oshape, G):
     if mode not in ('symmetric', 'reflect', 'periodic'):
         return None
     from pytorch_wavelets import DWT1DForward, DWT1DInverse, DWTForward, DWTInverse
-    wv = pywt.Wavelet(w)
-    filt = (wv.rec_lo[::-1], wv.rec_hi[::-1])
+    if isinstance(w, (list, tuple)):
+        wa, wb = pywt.Wavelet(w[0]), pywt.Wavelet(w[1])
+        filt = (wa.rec_lo[::-1], wa.rec_hi[::-1], wb.rec_lo[::-1], wb.rec_hi[::-1])
+        I1 = _mods(dim, w, mode, 1)[1]
+    else:
+        wv = pywt.Wavelet(w)
+        filt = (wv.rec_lo[::-1], wv.rec_hi[::-1])
+        I1 = (DWT1DInverse if dim == 1 else DWTInverse)(wave=w, mode=mode)
     F1 = (DWT1DForward if dim == 1 else DWTForward)(J=1, wave=filt, mode=mode)
-    I1 = (DWT1DInverse if dim == 1 else DWTInverse)(wave=w, mode=mode)
     M = int(np.prod(oshape))
     d = torch.as_tensor(np.eye(M).reshape((M,) + tuple(oshape)))
     hs = []
